@@ -272,6 +272,13 @@ fn add_new_mapping(state: &mut State, new_key: &KeyCode, m: &Mapping) -> StepRes
   
   if is_action_mapping(m) {
     events.append(&mut release_action_mappings(state));
+  }
+  
+  // Modifiers absorbed by an earlier keystroke apply to that keystroke only. They are
+  // flushed when another key produces output, and also when another keystroke absorbs
+  // modifiers of its own: there is a single absorbing trigger, so otherwise pressing the
+  // new trigger again would bring the earlier keystroke's absorbed modifiers back.
+  if is_action_mapping(m) || m.absorbing.len() > 0 {
     let should_absorb = {
       match &state.absorbing_trigger {
         Some(absorbing_trigger) => *absorbing_trigger != *new_key,
